@@ -1,0 +1,51 @@
+//go:build verif
+
+package rtph264
+
+// Contracts checked by /verif/govc (see /verif/DESIGN.md). Comment-only file.
+
+//@ func packetCount
+//@   requires avail > 0 && le >= 0
+//@   ensures ret >= 0 && (ret-1)*avail < le && le <= ret*avail
+//@   modifies nothing
+
+//@ func lenAggregated
+//@   ensures ret >= 1
+//@   ensures addNALU == nil ==> ret == lenagg(nalus)
+//@   ensures addNALU != nil ==> ret == lenagg(nalus) + 2 + len(addNALU)
+//@   modifies nothing
+
+//@ func (e *Encoder) writeSingle
+//@   requires e.SSRC != nil
+//@   ensures[C06] err == nil && len(ret) == 1 && ret[0] != nil
+//@   ensures[C06] sameslice(ret[0].Payload, nalu)
+//@   ensures[C06] ret[0].SequenceNumber == old(e.sequenceNumber) && e.sequenceNumber == old(e.sequenceNumber) + 1
+//@   ensures[C06] ret[0].Marker == marker && ret[0].PayloadType == e.PayloadType && ret[0].SSRC == *e.SSRC
+//@   ensures fresh(ret) && fresh(ret[0])
+//@   modifies e.sequenceNumber, fresh
+
+//@ func (e *Encoder) writeFragmented
+//@   requires e.SSRC != nil && 3 <= e.PayloadMaxSize && e.PayloadMaxSize <= 65535
+//@   requires len(nalu) >= 2
+//@   ensures[C06] err == nil && len(ret) >= 1
+//@   ensures[C06] forall j :: 0 <= j && j < len(ret) ==> ret[j] != nil && len(ret[j].Payload) <= e.PayloadMaxSize
+//@   ensures[C06] forall j :: 0 <= j && j < len(ret) ==> ret[j].SequenceNumber == old(e.sequenceNumber) + uint16(j)
+//@   ensures[C06] e.sequenceNumber == old(e.sequenceNumber) + uint16(len(ret))
+//@   ensures[C06] forall j :: 0 <= j && j < len(ret) ==> ret[j].Marker == (marker && j == len(ret)-1)
+//@   ensures[C06] forall j :: 0 <= j && j < len(ret) ==> ret[j].PayloadType == e.PayloadType && ret[j].SSRC == *e.SSRC
+//@   ensures fresh(ret)
+//@   ensures forall j :: 0 <= j && j < len(ret) ==> fresh(ret[j])
+//@   modifies e.sequenceNumber, fresh
+//@   loop 1
+//@     invariant 0 <= i && i <= packetCount && len(ret) == packetCount && packetCount >= 1
+//@     invariant avail == e.PayloadMaxSize - 2 && e.PayloadMaxSize == old(e.PayloadMaxSize) && e.SSRC == old(e.SSRC) && e.PayloadType == old(e.PayloadType) && *e.SSRC == old(*e.SSRC)
+//@     invariant i < packetCount ==> len(nalu) + i*avail == len(old(nalu)) - 1
+//@     invariant i < packetCount ==> le == avail
+//@     invariant (packetCount-1)*avail < len(old(nalu)) - 1 && len(old(nalu)) - 1 <= packetCount*avail
+//@     invariant e.sequenceNumber == old(e.sequenceNumber) + uint16(i)
+//@     invariant fresh(ret)
+//@     invariant forall j :: 0 <= j && j < i ==> ret[j] != nil && fresh(ret[j]) && len(ret[j].Payload) <= e.PayloadMaxSize
+//@     invariant forall j :: 0 <= j && j < i ==> ret[j].SequenceNumber == old(e.sequenceNumber) + uint16(j)
+//@     invariant forall j :: 0 <= j && j < i ==> ret[j].Marker == (marker && j == packetCount-1)
+//@     invariant forall j :: 0 <= j && j < i ==> ret[j].PayloadType == e.PayloadType && ret[j].SSRC == *e.SSRC
+//@     decreases packetCount - i
